@@ -43,7 +43,12 @@
      different component the area is not a monomial ("mixed") and only the identities
      volume = area * height and mass = density * volume are observed there.
    * Links: only the pairs in LinkPairs are created, never cyclically (a cyclic link is infinite recursion in
-     the code and cannot come out of a blueprint).
+     the code and cannot come out of a blueprint).  SetLink stands for setLink() followed by clearLinkedCache():
+     setLink alone leaves a previously cached volume in place (armi links dimensions while blocks are built or
+     converted, before volumes are asked for); getVolume() after a bare setLink is not part of the statement.
+   * Temperatures: both components use one table of NT distinct temperatures (index t means the same number of
+     degrees for both), because a temperature passed explicitly to getDimension travels through a link to the
+     other component; the table lies in the intersection of the two materials' valid ranges.
    * Zero-valued dimensions (getDimension returns a falsy dimension unscaled) give 0 on both sides and are
      not exercised.
 *)
@@ -104,7 +109,6 @@ Q(c, d, tc, cold) ==
               ELSE [r |-> "ok", bc |-> x.bc, bd |-> x.bd, b |-> x.b, e |-> MAdd(x.e, TEF(c, t, Tin[c]))]
 Hot(c, d)  == Q(c, d, 0, FALSE)
 Cold(c, d) == Q(c, d, 0, TRUE)
-Growth(c, d) == MSub(Hot(c, d).e, Cold(c, d).e)       \* hot / cold of one dimension (bases cancel)
 TEFQ(c) == IF TEFRefused(c, T[c], Tin[c]) THEN Refused ELSE [r |-> "ok", e |-> TEF(c, T[c], Tin[c])]
 
 \* getArea() relative to getArea(cold=True): degree-2 homogeneous in the lengths
